@@ -127,6 +127,8 @@ impl Scenario for C18 {
             // NUL bytes too (zero-padded asset codes): representable, announced as they are
             (b"W".to_vec(), b"PAD\0".to_vec(), 7, Some(true)),
             (b"\0".to_vec(), b"W".to_vec(), 7, Some(true)),
+            // the name the native asset's contract reports, on a token that is not the native asset
+            (b"native".to_vec(), b"NTV".to_vec(), 7, Some(true)),
         ];
         canon.push(CanonTok { addr: iw.assets[0].clone(), registered: true, representable: Some(true) });
         canon.push(CanonTok { addr: iw.assets[1].clone(), registered: false, representable: Some(true) });
@@ -405,7 +407,7 @@ fn main() {
         let mut o = Opts::new(tier, if thorough { 11 } else { 9 });
         o.min_depth = 2;
         o.xcheck = tier == "thorough";
-        o.rule = "histories of trusted-chain changes (a mixed-case name, a lower-case name, the hub itself) followed by remote deployment requests: deploy_remote_interchain_token for caller U0 / U1 x 4 salts (3 registered by U0 with metadata incl. multi-byte name and decimals 0/7/255; one never used; U1 reusing U0's salts) and deploy_remote_canonical_token for a registered asset contract, an unregistered one and 9 canonical tokens with unusual metadata (256 decimals, empty name, empty symbol, non-UTF-8 name, 255 decimals, a name that is one blank, a symbol ending in a blank, a symbol ending in NUL, a name that is one NUL); a registered custom token renamed by its issuer between two requests; destination trusted / removed again / never trusted (the service's own chain name) / the hub; the gas service named as its own payer; gas -1, 0, 1, balance, balance+1, and -1 of a token that ignores signs; authorised by the payer / the other user / nobody. Announced payload, gas_paid and token_deployment_started are compared with the independent ABI encoding of the token's actual metadata; every other balance must stay put".into();
+        o.rule = "histories of trusted-chain changes (a mixed-case name, a lower-case name, the hub itself) followed by remote deployment requests: deploy_remote_interchain_token for caller U0 / U1 x 4 salts (3 registered by U0 with metadata incl. multi-byte name and decimals 0/7/255; one never used; U1 reusing U0's salts) and deploy_remote_canonical_token for a registered asset contract, an unregistered one and 9 canonical tokens with unusual metadata (256 decimals, empty name, empty symbol, non-UTF-8 name, 255 decimals, a name that is one blank, a symbol ending in a blank, a symbol ending in NUL, a name that is one NUL, the name 'native' on a token that is not the native asset); a registered custom token renamed by its issuer between two requests; destination trusted / removed again / never trusted (the service's own chain name) / the hub; the gas service named as its own payer; gas -1, 0, 1, balance, balance+1, and -1 of a token that ignores signs; authorised by the payer / the other user / nobody. Announced payload, gas_paid and token_deployment_started are compared with the independent ABI encoding of the token's actual metadata; every other balance must stay put".into();
         (C18 { thorough }, o)
     });
 }
